@@ -38,7 +38,7 @@ def bounds(tier):
     return {'read-only calls': READONLY, 'emitters under order exploration': EMITTERS,
             'order exploration': 'every pair of objects gets symbolic ranks (thorough: +sampled triples); designs <= 14 objects',
             'key collision search': 'names of length <= 4 over {a,b,A,0,1,_}',
-            'pass order': 'passes %r on 5 designs; two objects at a time keep or swap their places in every set (quick: 40 pairs '
+            'pass order': 'passes %r on 6 designs; two objects at a time keep or swap their places in every set (quick: 40 pairs '
                           'per design, same-kind pairs first); each distinct result vs the source, K=3 from reset' % PASSES20}
 
 
@@ -119,6 +119,17 @@ def build_passd(d):
         p <<= z + (a | b)
         q = pyrtl.Output(3, 'q')
         q <<= (a | b) + x
+    elif k == 'swap_mux':
+        # the same three wires in different roles of several muxes (compare-exchange; permuted 1-bit muxes)
+        s_ = a < b
+        lo, hi = pyrtl.select(s_, a, b), pyrtl.select(s_, b, a)
+        o = pyrtl.Output(2, 'lo')
+        o <<= lo
+        p = pyrtl.Output(2, 'hi')
+        p <<= hi
+        x, y, z = a[0], a[1], b[0]
+        q = pyrtl.Output(3, 'q')
+        q <<= pyrtl.concat(pyrtl.select(x, y, z), pyrtl.select(y, x, z), pyrtl.select(z, y, x))
     elif k == 'dup_consts':
         r = pyrtl.Register(2, 'r', reset_value=2)
         r.next <<= pyrtl.select(a == pyrtl.Const(1, 2), r + pyrtl.Const(1, 2), pyrtl.Const(1, 2))
@@ -714,7 +725,7 @@ class BRanked(set, metaclass=_BSetMeta):
         return BRanked(set.intersection(set(set.__iter__(self)), *o))
 
 
-BUILD_MODULES = ['core', 'wire', 'conditional', 'corecircuits', 'memory', 'helperfuncs', 'simulation', 'importexport']
+BUILD_MODULES = ['core', 'wire', 'conditional', 'corecircuits', 'memory', 'helperfuncs', 'simulation', 'importexport', 'passes', 'transform']
 
 
 @contextlib.contextmanager
@@ -804,6 +815,29 @@ def all_texts(block):
     return tuple(emit(k, block, tr) for k in EMITTERS)
 
 
+def port_texts(block):
+    """after a transformation pass internal names may differ from run to run; the module's interface (the identifiers of its
+    ports, which stand for the user's Input/Output names) may not"""
+    text = emit('verilog', block)
+    keep = [ln for ln in text.split('\n') if ln.startswith('module ') or ln.strip().startswith(('input', 'output'))]
+    return ('\n'.join(keep),)
+
+
+def build_then(case):
+    blk = designs.build(case)
+    then = case.get('then')
+    if then == 'optimize':
+        with pyrtl.set_working_block(blk, no_sanity_check=True):
+            pyrtl.optimize(block=blk)
+        return port_texts(blk)
+    if then == 'synth+optimize':
+        with pyrtl.set_working_block(blk, no_sanity_check=True):
+            pyrtl.synthesize(block=blk)
+            pyrtl.optimize()
+            return port_texts(pyrtl.working_block())
+    return all_texts(blk)
+
+
 def run_build_determinism(case, ob, site):
     # number of wires the build creates (deterministic): one plain build
     with build_order_env() as counter:
@@ -818,14 +852,13 @@ def run_build_determinism(case, ob, site):
     texts = {}
     with build_order_env():     # the reference: plain creation order
         BRanked.sym_rank, BRanked.memo, BRanked.constraints = {}, {}, []
-        texts[all_texts(designs.build(case))] = (0, 0)
+        texts[build_then(case)] = (0, 0)
     npaths = 0
     for (i, j) in pairs:
         def body():
             with build_order_env():
                 BRanked.memo = {}
-                blk = designs.build(case)
-                return all_texts(blk)
+                return build_then(case)
         BRanked.setup(i, j)
         paths = explore(body, assumptions=list(BRanked.constraints), max_paths=64)
         npaths += len(paths)
@@ -972,8 +1005,13 @@ def cases(tier, seed):
               {'fam': 'DET', 'kind': 'mem3'}]:
         for ch in range(4):
             out.append(dict(d, k='build', sample=120 if tier == 'quick' else None, chunk=ch))
+    # export AFTER a pass: the identifiers of the ports (they stand for the user's names) are the same in every run
+    for d in [{'fam': 'DET', 'kind': 'bad_names'}, {'fam': 'DET', 'kind': 'small'}, {'fam': 'COND20', 'kind': 'cond_chain'}]:
+        for then in ('optimize', 'synth+optimize'):
+            for ch in range(4):
+                out.append(dict(d, k='build', then=then, sample=120 if tier == 'quick' else None, chunk=ch))
     for d in [{'fam': 'PASSD', 'kind': 'dup_regs'}, {'fam': 'PASSD', 'kind': 'dup_exprs'}, {'fam': 'PASSD', 'kind': 'dup_consts'},
-              {'fam': 'PASSD', 'kind': 'dup_mem'}, {'fam': 'DET', 'kind': 'small'}]:
+              {'fam': 'PASSD', 'kind': 'dup_mem'}, {'fam': 'PASSD', 'kind': 'swap_mux'}, {'fam': 'DET', 'kind': 'small'}]:
         for pas in PASSES20:
             out.append(dict(d, k='pass_order', pas=pas, sample=40 if tier == 'quick' else None))
     ro = designs.expr_cases(6 if tier == 'quick' else 150, seed + 51, n=6, maxw=4, nrom=0, ops=['+', '-', '&', '|', '^', '~', '<', 'x', 'c', 's', 'trunc', 'const']) + \
@@ -994,7 +1032,7 @@ def site_of(c):
     if c['k'] == 'determinism':
         return 'C20:determinism:%s:%s' % (c['emitter'], c['kind'])
     if c['k'] == 'build':
-        return 'C20:build-determinism:%s' % c['kind']
+        return 'C20:build-determinism:%s%s' % (c['kind'], ':then-' + c['then'] if c.get('then') else '')
     if c['k'] == 'pass_order':
         return 'C20:pass-order:%s:%s' % (c['pas'], c['kind'])
     return 'C20:readonly:%s' % c['call']
